@@ -46,7 +46,17 @@ import (
 
 func init() { register("C15", propC15) }
 
-const c15Wait = 5 * time.Second
+// c15W bounds every wait for the real code. A wait that expires is an observation ("timeout-..."), never a verdict by
+// itself; after a few of them in one process (the code under test is stuck in many cases) the bound shrinks so that
+// the run still ends quickly.
+var c15Timeouts atomic.Int32
+
+func c15W() time.Duration {
+	if c15Timeouts.Load() >= 3 {
+		return 400 * time.Millisecond
+	}
+	return 5 * time.Second
+}
 
 // ---------------------------------------------------------------- clock with observable ticker stop
 
@@ -159,13 +169,13 @@ func c15Num(id string) int {
 func (w *c15World) gate(call *c15DeployCall) error {
 	select {
 	case w.deployCh <- call:
-	case <-time.After(4 * c15Wait):
+	case <-time.After(4 * c15W()):
 		return fmt.Errorf("harness: deploy gate full")
 	}
 	select {
 	case err := <-call.resp:
 		return err
-	case <-time.After(6 * c15Wait):
+	case <-time.After(6 * c15W()):
 		return fmt.Errorf("harness: deploy never released")
 	}
 }
@@ -487,7 +497,7 @@ func (w *c15World) sync() bool {
 	select {
 	case <-done:
 		return true
-	case <-time.After(c15Wait):
+	case <-time.After(c15W()):
 		return false
 	}
 }
@@ -497,7 +507,7 @@ func (w *c15World) collectBatch() string {
 	ao, as := w.job.VerifAssemblyC15()
 	want := len(ao) + len(as)
 	var calls []*c15DeployCall
-	deadline := time.After(c15Wait)
+	deadline := time.After(c15W())
 	for len(calls) < want {
 		select {
 		case c := <-w.deployCh:
@@ -641,12 +651,12 @@ func (w *c15World) deployOK() string {
 	var ck string
 	select {
 	case ck = <-w.startCh:
-	case <-time.After(c15Wait):
+	case <-time.After(c15W()):
 		return "timeout-start"
 	}
 	select {
 	case <-w.clk.everyCh:
-	case <-time.After(c15Wait):
+	case <-time.After(c15W()):
 		return "timeout-running"
 	}
 	if !w.sync() {
@@ -668,7 +678,7 @@ func (w *c15World) deployFail(k int) string {
 
 // the failure task is enqueued by the start goroutine: wait until it has run
 func (w *c15World) afterFailedDeploy() string {
-	deadline := time.Now().Add(c15Wait)
+	deadline := time.Now().Add(c15W())
 	for time.Now().Before(deadline) {
 		if !w.sync() {
 			return "timeout-sync"
@@ -724,7 +734,7 @@ func (w *c15World) storeCall(f func() error) string {
 	if _, _, _, still := st.VerifPendingC15(); still {
 		return res
 	}
-	deadline := time.Now().Add(c15Wait)
+	deadline := time.Now().Add(c15W())
 	for time.Now().Before(deadline) {
 		if cur, ok := st.VerifCurrentIDC15(); ok && cur == pid {
 			return fmt.Sprintf("%s pub=%d", res, pid)
@@ -750,6 +760,10 @@ func (w *c15World) tick() string {
 		w.mu.Unlock()
 		if len(cs) == 0 {
 			outs = append(outs, "retry")
+			continue
+		}
+		if w.cluster != nil && !w.cluster.awaitAcks(cs) {
+			outs = append(outs, "timeout-ack")
 			continue
 		}
 		ids := map[uint64]bool{}
@@ -809,7 +823,7 @@ func (w *c15World) handleEvent(o *operator.Operator, s int, ev *workerpb.Event) 
 	select {
 	case err := <-ch:
 		return err, true
-	case <-time.After(c15Wait):
+	case <-time.After(c15W()):
 		return nil, false
 	}
 }
@@ -886,10 +900,10 @@ func (w *c15World) flush(i int) string {
 	}()
 	select {
 	case <-fired:
-	case <-time.After(c15Wait):
+	case <-time.After(c15W()):
 		return "timeout-flush"
 	}
-	deadline := time.After(c15Wait)
+	deadline := time.After(c15W())
 	for {
 		if h := w.takeHandled(i); h != "" {
 			return "processed " + h
@@ -1004,14 +1018,14 @@ func c15Impl(c lib.Case) []string {
 	for _, line := range c.Ops {
 		a := strings.Fields(line)
 		var o string
+		clusterDone := false
 		if w.cluster != nil {
 			if r, ok := w.cluster.clusterOp(a); ok {
-				out = append(out, r)
-				c15Count(a, r)
-				continue
+				o, clusterDone = r, true
 			}
 		}
 		switch {
+		case clusterDone:
 		case len(a) == 3 && a[0] == "reg" && a[1] == "o":
 			w.op(atoi(a[2]))
 			w.job.HandleRegisterOperator(&jobpb.NodeIdentity{Id: c15ID(atoi(a[2])), Host: "h"})
@@ -1077,6 +1091,13 @@ func c15Impl(c lib.Case) []string {
 		}
 		out = append(out, o)
 		c15Count(a, o)
+		if strings.Contains(o, "timeout-") { // the run has left the model; what follows would only wait again
+			c15Timeouts.Add(1)
+			for len(out) < len(c.Ops) {
+				out = append(out, "skipped-after-timeout")
+			}
+			break
+		}
 	}
 	// let a start goroutine that is still parked at the gate finish
 	for _, c := range w.batch {
@@ -1646,13 +1667,16 @@ func (j c15rJob) OnSourceRunnerCheckpointComplete(ctx context.Context, req *jobp
 	}
 	j.cl.parked[j.wk.num] = a
 	j.cl.mu.Unlock()
-	j.cl.ackCh <- j.wk.num
+	select {
+	case j.cl.ackCh <- j.wk.num:
+	default:
+	}
 	select {
 	case ok := <-a.release:
 		if !ok {
 			return fmt.Errorf("connection lost")
 		}
-	case <-time.After(8 * c15Wait):
+	case <-time.After(8 * c15W()):
 		return fmt.Errorf("harness: acknowledgement never released")
 	}
 	res := j.cl.w.storeCall(func() error { return j.cl.w.job.HandleSourceRunnerCheckpointComplete(ctx, req) })
@@ -1701,7 +1725,10 @@ func (o *c15rOp) HandleEventBatch(ctx context.Context, batch []*workerpb.Event) 
 			}
 			o.cl.barRes[[2]int{c15rWorkerOf(c15Num(o.sender)), o.target.num}] = res
 			o.cl.mu.Unlock()
-			o.cl.barCh <- struct{}{}
+			select {
+			case o.cl.barCh <- struct{}{}:
+			default:
+			}
 		}
 		if err != nil && bar == nil {
 			return nil // watermarks of a stale loop refused by a redeployed operator are not this property's business
@@ -1745,7 +1772,7 @@ func (cl *c15Cluster) start(k int) {
 // collect both (de)registrations of worker k (they come from two goroutines of the process)
 func (cl *c15Cluster) collect(ch chan [2]int, k int) bool {
 	seen := map[int]bool{}
-	deadline := time.After(c15Wait)
+	deadline := time.After(c15W())
 	for len(seen) < 2 {
 		select {
 		case r := <-ch:
@@ -1893,9 +1920,38 @@ func (cl *c15Cluster) startCheckpoint(srID int, id uint64) error {
 	}()
 	select {
 	case <-done:
-	case <-time.After(c15Wait):
+	case <-time.After(c15W()):
 	}
 	return nil
+}
+
+// awaitAcks waits until every live runner that was told to start the checkpoint has reached its (parked)
+// acknowledgement, so that no checkpoint request is still travelling inside a runner when the next op runs
+func (cl *c15Cluster) awaitAcks(cs [][2]uint64) bool {
+	deadline := time.After(c15W())
+	for {
+		missing := false
+		cl.mu.Lock()
+		for _, c := range cs {
+			k := c15rWorkerOf(int(c[0]))
+			wk := cl.workers[k]
+			if wk == nil || wk.killed.Load() {
+				continue
+			}
+			if a := cl.parked[k]; a == nil || a.req.CheckpointId != c[1] {
+				missing = true
+			}
+		}
+		cl.mu.Unlock()
+		if !missing {
+			return true
+		}
+		select {
+		case <-cl.ackCh:
+		case <-deadline:
+			return false
+		}
+	}
 }
 
 func (cl *c15Cluster) assignSplits(srID int) error {
@@ -1937,7 +1993,7 @@ func (cl *c15Cluster) opRack(k int) string {
 		return "none" // the store is not waiting for this runner
 	}
 	// the runner reaches its acknowledgement by itself after StartCheckpoint; give it time to get there
-	deadline := time.After(c15Wait)
+	deadline := time.After(c15W())
 	var a *c15rAck
 	for a == nil {
 		cl.mu.Lock()
@@ -1966,7 +2022,7 @@ func (cl *c15Cluster) opRack(k int) string {
 	var res string
 	select {
 	case res = <-a.result:
-	case <-time.After(c15Wait):
+	case <-time.After(c15W()):
 		return "timeout-ack"
 	}
 	if !(res == "ok" || strings.HasPrefix(res, "ok ")) {
@@ -1979,7 +2035,7 @@ func (cl *c15Cluster) opRack(k int) string {
 		}
 	}
 	sort.Ints(liveOps)
-	deadline = time.After(c15Wait)
+	deadline = time.After(c15W())
 	for {
 		cl.mu.Lock()
 		n := 0
